@@ -124,6 +124,7 @@ func runC18(c *core.Ctx) {
 	maybeOpt := map[string]bool{}
 	afterPanic := false
 	usedArg := map[string]bool{}
+	sharedArgVal, sharedArgBool := new(c18SV), new(bool)
 	aborted := false
 	declared := 0
 	var violation string
@@ -260,9 +261,10 @@ func runC18(c *core.Ctx) {
 					case 2:
 						cmd.IntArg(nm, 0, "")
 					case 3:
-						cmd.BoolPtr(new(bool), cli.BoolArg{Name: nm})
+						cmd.BoolPtr(sharedArgBool, cli.BoolArg{Name: nm})
 					default:
-						cmd.VarArg(nm, new(c18SV), "")
+						// the same value object behind several declarations: the name decides, not the destination
+						cmd.VarArg(nm, sharedArgVal, "")
 					}
 					return false
 				}()
